@@ -195,3 +195,41 @@ vm_harness! {
         std::mem::forget(vm);
     }
 }
+
+vm_harness! {
+    fn c09_o4_clone() {
+        // clone never lands on a live handle: it takes the freed slot when there is one, a fresh handle otherwise;
+        // the copy has the source's bytes and both originals are untouched; a dead source is an error and nothing changes
+        type M = BufsG<4, 3>;
+        let (mut vm, m) = M::vm();
+        let has_free: bool = kani::any();
+        if !has_free { vm.resources.pop(); }
+        let hv = Value::from_raw(kani::any());
+        let r = bytes_real::v_clone(&mut vm, &[hv]);
+        // the two originals, byte for byte
+        let (a, b) = (buf(&vm, 0), buf(&vm, 1));
+        assert!(a.len() == 4 && b.len() == 3);
+        let mut i = 0;
+        while i < 4 { assert!(a[i] == m.m0[i]); i += 1; }
+        let mut j = 0;
+        while j < 3 { assert!(b[j] == m.m1[j]); j += 1; }
+        match idx(hv) {
+            Some(h) if h <= 1 => {
+                assert!(r.ok().and_then(|v| v.as_int()) == Some(2));
+                assert!(vm.resources.len() == 3);
+                let c = buf(&vm, 2);
+                assert!(c.len() == M::blen(h));
+                let mut k = 0;
+                while k < M::blen(h) { assert!(c[k] == m.get(h, k)); k += 1; }
+            }
+            _ => {
+                assert!(r.is_err());
+                assert!(vm.resources.len() == if has_free { 3 } else { 2 } && vm.get_resource(2).is_none());
+            }
+        }
+        kani::cover!(idx(hv) == Some(1) && has_free, "REQ clone into the freed slot");
+        kani::cover!(idx(hv) == Some(0) && !has_free, "REQ clone into a fresh handle");
+        kani::cover!(idx(hv) == Some(2) && has_free, "REQ freed source refused");
+        std::mem::forget(vm);
+    }
+}
